@@ -149,8 +149,9 @@ Attributes: Logarithms
 import math
 from collections import defaultdict
 from decimal import Decimal
-from functools import lru_cache, total_ordering
+from functools import lru_cache, reduce, total_ordering
 from importlib.metadata import version
+from operator import mul
 from typing import (
     TYPE_CHECKING,
     Any,
@@ -1248,17 +1249,18 @@ class Unit:
     @lru_cache(maxsize=None)
     def as_ratio(self) -> Tuple["Unit", "Unit"]:
         """Returns this unit, split into a numerator and denominator"""
-        numerator, denominator = self.dimension.as_ratio()
+        numerator = {u: e for u, e in self.factors.items() if e >= 0} or {One: 1}
+        denominator = {u: -e for u, e in self.factors.items() if e < 0} or {One: 1}
         return (
             Unit(
                 self.prefix,
-                {u: e for u, e in self.factors.items() if e >= 0} or {One: 1},
                 numerator,
+                reduce(mul, (u.dimension**e for u, e in numerator.items())),
             ),
             Unit(
                 IdentityPrefix,
-                {u: -e for u, e in self.factors.items() if e < 0} or {One: 1},
                 denominator,
+                reduce(mul, (u.dimension**e for u, e in denominator.items())),
             ),
         )
 
